@@ -250,7 +250,9 @@ pub fn drive(fam: &SurfaceFamily, tier: Tier, seed: u64, stats: &mut Stats) -> R
         Tier::Thorough => fam.thorough,
     };
     let total = std::env::var("PVH_CASES").ok().and_then(|s| s.parse::<usize>().ok()).unwrap_or(total);
-    let work = format!("{}-{}", fam.prop, fam.name);
+    // one generated crate per property, family and tier (a quick and a thorough run of the same
+    // property may be started side by side)
+    let work = format!("{}-{}-{}", fam.prop, fam.name, tier.name());
     let chunk = 450;
     let mut done = 0;
     let mut uncompilable = 0;
